@@ -532,6 +532,9 @@ class MultiMachine(Machine):
             return
         a = np.asarray(multi.parameter_values, dtype=float)
         b = np.asarray(solo.fit.parameter_values, dtype=float)
+        for i, nm in enumerate(sim.ref.par_names):
+            if nm == "sigma":  # densities are even in sigma: +sigma and -sigma are the same optimum
+                a[i], b[i] = abs(a[i]), abs(b[i])
         sig = np.asarray(solo.fit.parameter_errors, dtype=float)
         if a.shape != b.shape or np.any(np.abs(a - b) > 0.05 * np.where(sig > 0, sig, np.inf) + 1e-6 * (np.abs(b) + 1e-3)):
             raise Violation("C11", "single", "parameter_values", "a multi-fit of one fit gives %s, the fit on its own %s (sigma %s)" % (a.tolist(), b.tolist(), sig.tolist()), step=step)
